@@ -4,6 +4,8 @@ import (
 	"encoding/base64"
 	"fmt"
 	"math"
+	"strconv"
+	"strings"
 	"unicode/utf8"
 
 	"github.com/freeconf/yang/fc"
@@ -93,12 +95,13 @@ func (check fieldConstraints) checkFractionDigits(v val.Value, t *meta.Type) err
 		if err != nil || !isFloat {
 			return
 		}
-		scaled := f * math.Pow10(digits)
-		if math.Abs(scaled) > 1<<52 {
-			// beyond what the representation can tell
+		if math.IsInf(f, 0) || math.IsNaN(f) {
 			return
 		}
-		if math.Abs(scaled-math.Round(scaled)) > 1e-6 {
+		// the shortest decimal text that reads back as this very number: multiplying by a power
+		// of ten would bring in errors of its own (97964648.165 * 10^4 is no whole number)
+		text := strconv.FormatFloat(f, 'f', -1, 64)
+		if point := strings.IndexByte(text, '.'); point >= 0 && len(text)-point-1 > digits {
 			err = fmt.Errorf("'%s' has more than %d fraction digits", item, digits)
 		}
 	})
